@@ -812,10 +812,10 @@ def spR (p : Path) (a b : Wire) : ESpan := ⟨p, [("a", a), ("b", b)]⟩
 
 -- three spans in two orders and two mixes of paths / encodings: same outcome, and it is a drop by rule r0
 example : outcome sEx ⟨[spA mb (.mint 200), spR mb (.mint 5) (.mstr "abc"), spA mb (.mint 404)], some (spR mb (.mint 5) (.mstr "abc"))⟩
-    = ⟨⟨1, false, .rule .span "r0", ""⟩, "200•404•5•,abc,", .ok 1 true⟩ := by decide
+    = ⟨⟨1, false, .rule .span "r0", ""⟩, "200•404•5•,abc,", ⟨1, true⟩⟩ := by decide
 example : outcome sEx ⟨[spA ⟨.otlp, true⟩ (.odbl 404 1), spA ⟨.msgpEvent, false⟩ (.mf32 200 1), spR ⟨.msgpEvent, true⟩ (.mf64 5 1) (.mbin "abc")],
       some (spR ⟨.msgpEvent, true⟩ (.mf64 5 1) (.mbin "abc"))⟩
-    = ⟨⟨1, false, .rule .span "r0", ""⟩, "200•404•5•,abc,", .ok 1 true⟩ := by decide
+    = ⟨⟨1, false, .rule .span "r0", ""⟩, "200•404•5•,abc,", ⟨1, true⟩⟩ := by decide
 example : BelowCaps sEx [spA mb (.mint 200), spR mb (.mint 5) (.mstr "abc"), spA mb (.mint 404)] :=
   ⟨by decide, by intro id c ans r h; simp [sEx, mkS] at h⟩
 example : SafeSpans sEx (spR mb (.mint 5) (.mstr "abc")) (spR ⟨.msgpEvent, true⟩ (.mf64 5 1) (.mbin "abc")) :=
